@@ -2,7 +2,7 @@
    C19: audit and error logging record exactly what happened, once, intact.
    [rel] is the relevant-status regexp (Go's regexp), a parameter of every statement. *)
 From Coq Require Import Permutation.
-From Verif Require Import Base Audit AuditProofs.
+From Verif Require Import Base Audit AuditProofs AuditJson AuditJsonProofs.
 
 (* the coded nesting of conditions of ProcessLogging is the documented table, for every engine mode,
    rule flag, pattern configuration, status and interruption kind *)
@@ -154,3 +154,51 @@ Theorem C19_chunked_writer_refuted :
     /\ ~ Permutation (split_lines [] (concat out)) [r1; r2].
 Proof. exact chunked_writer_tears. Qed.
 Print Assumptions C19_chunked_writer_refuted.
+
+(* JSON format. encoding/json's string encoder followed by a JSON string reader gives the bytes back and
+   stops exactly at the closing quote, for ARBITRARY bytes (quotes, backslashes, control characters,
+   <, >, &, U+2028/9, invalid UTF-8) and whatever follows; invalid UTF-8 bytes come back as U+FFFD *)
+Theorem C19_json_string_roundtrip : forall s rest,
+  wf_bytes s -> js_unquote (js_string s ++ rest) = Some (js_sanitize s, rest).
+Proof. exact js_roundtrip. Qed.
+Print Assumptions C19_json_string_roundtrip.
+
+(* ... and valid UTF-8 comes back unchanged *)
+Theorem C19_json_string_intact : forall s rest,
+  wf_bytes s -> valid_utf8 s = true -> js_unquote (js_string s ++ rest) = Some (s, rest).
+Proof. exact js_roundtrip_valid. Qed.
+Print Assumptions C19_json_string_intact.
+
+(* a printed string holds no raw control byte, in particular no newline: one JSON document per line *)
+Theorem C19_json_one_line : forall s, wf_bytes s -> Forall (fun x => (32 <= x)%N) (js_string s).
+Proof. exact js_string_one_line. Qed.
+Print Assumptions C19_json_one_line.
+
+(* the printed record carries the transaction id as one string literal of its head, and a reader gets
+   the id back from it whatever the rest of the record holds *)
+Theorem C19_json_record_id : forall h middle ms,
+  wf_bytes (jh_id h) ->
+  json_record h middle ms = json_head_pre h ++ js_string (jh_id h) ++ (json_head_post h ++ middle ++ json_tail ms)
+  /\ js_unquote (js_string (jh_id h) ++ (json_head_post h ++ middle ++ json_tail ms))
+     = Some (js_sanitize (jh_id h), json_head_post h ++ middle ++ json_tail ms).
+Proof. exact json_record_id. Qed.
+Print Assumptions C19_json_record_id.
+
+(* rule flow (chains, SecMarker, skip, skipAfter, allow, interruption): C19_record_content,
+   C19_fired_rules and C19_error_callback_once above are stated over run_phases, whose rule loop now has
+   these actions; the two statements below say what the loop never records. A rule whose chain did not
+   match entirely, a SecMarker, a rule that matched nothing: no match is recorded (no callback, no audit
+   flag, no message) *)
+Theorem C19_flow_unrecorded : forall c p w t r,
+  chain_ok r = false \/ is_some (r_marker r) = true \/ r_nmatch r = 0%nat ->
+  same_log t (snd (eval_step c p (w, t) r)).
+Proof. exact step_unrecorded. Qed.
+Print Assumptions C19_flow_unrecorded.
+
+(* a rule reached while skip:N is counting, while a skipAfter marker is pending, after allow left the
+   loop, or after a real interruption outside the logging phase, is not evaluated at all *)
+Theorem C19_flow_skipped : forall c p w t r,
+  w_break w = true \/ (w_skip w <> 0)%nat \/ w_after w <> None \/ (is_some (t_intr t) = true /\ p <> 5%N) ->
+  snd (eval_step c p (w, t) r) = t.
+Proof. exact step_skipped. Qed.
+Print Assumptions C19_flow_skipped.
